@@ -500,6 +500,23 @@ def adversarial_projects():
     P["cfg_inherits_self"] = ({"en": {"k": "v"}, "fr": {}}, 'default = "en"\nlocales = ["en", "fr"]\ninherits = { fr = "fr" }')
     P["cfg_missing_file"] = (one({"k": "v"}), 'default = "en"\nlocales = ["en", "fr"]')
     P["cfg_weird_names"] = ({"en": {"k": "v"}}, 'default = "en"\nlocales = ["en", "not a locale!!", ""]')
+    # the default locale is not listed (the deserializer accepts that; ConfigFile::new appends and moves it first)
+    P["cfg_unlisted_default"] = ({"en": {"k": "v"}, "fr": {"k": "w"}, "de": {"k": "x"}}, 'default = "en"\nlocales = ["fr", "de"]')
+    P["cfg_unlisted_default_one"] = ({"en": {"k": "v"}, "fr": {"k": "w"}}, 'default = "en"\nlocales = ["fr"]')
+    P["cfg_unlisted_default_empty"] = ({"en": {"k": "v"}}, 'default = "en"\nlocales = []')
+    P["cfg_default_last"] = ({"en": {"k": "v"}, "fr": {"k": "w"}, "de": {"k": "x"}}, 'default = "en"\nlocales = ["fr", "de", "en"]')
+    P["cfg_unlisted_default_inherits"] = ({"en": {"k": "v"}, "fr": {}, "de": {"k": "x"}}, 'default = "en"\nlocales = ["fr", "de"]\ninherits = { fr = "de" }')
+    # a literal count whose CLDR category has no written form in that locale (falls back to _other), every category
+    for loc, counts in (("pl", [0, 1, 2, 3, 5, 22, 1.5]), ("ar", [0, 1, 2, 3, 11, 100, 0.5]), ("ru", [1, 2, 5, 21, 1.1]), ("cy", [0, 1, 2, 3, 6, 7]), ("ja", [0, 1]), ("fr", [0, 1, 2, 1000000])):
+        for ord_ in ("", "_ordinal"):
+            d = {"items%s_other" % ord_: "{{ count }} other"}
+            if loc != "ja":
+                d["items%s_one" % ord_] = "one"
+            for i, c in enumerate(counts):
+                d["k%d" % i] = "x $t(items, {\"count\": %s}) y" % json.dumps(c)
+            P["plural_lit_count_%s%s" % (loc, ord_)] = ({loc: d}, 'default = "%s"\nlocales = ["%s"]' % (loc, loc))
+    P["plural_lit_count_only_other"] = ({"en": {"p_other": "o", "a": "$t(p, {\"count\": 1})", "b": "$t(p, {\"count\": 0})"}, "fr": {"p_one": "u", "p_many": "m", "p_other": "o", "a": "$t(p, {\"count\": 1000000})", "b": "$t(p, {\"count\": 7})"}},
+                                        'default = "en"\nlocales = ["en", "fr"]')
     P["cfg_namespaces_missing_dir"] = (one({"k": "v"}), 'default = "en"\nlocales = ["en"]\nnamespaces = ["a", "b"]')
     return P
 
